@@ -3,7 +3,9 @@
 By the theorem `band_contains_iff_box` (OpdaProofs/Props/C01.lean) the band contains every continuous F simultaneously
 iff L_i <= F(Y_(i)) <= U_{i-1} for all i, and F(Y_(i)) are uniform order statistics; so the coverage is the rectangle
 probability P[L_i <= U_(i) <= U_{i-1}], which the driver evaluates *exactly in Q* on the level tables read off the
-returned distributions through their public cdf (Steck's determinant, identity cited)."""
+returned distributions through their public cdf, twice: by the cell-by-cell dynamic programme `band.rect`
+(OpdaModel/RectProb.lean; proved in Lean to be that probability) and by Steck's determinant `band.steck` (identity cited);
+the two rationals must be equal on every table."""
 import copy
 import warnings
 from fractions import Fraction as Fr
@@ -132,13 +134,33 @@ def run(seed, tier, replay=None):
                 and all(0 <= x <= 1 for x in alpha + beta)):
             rep.violate(what="band levels are not non-decreasing in [0,1]", input=inp, observed=dict(lower=alpha, upper=beta))
             continue
-        reqs.append(("band.steck", f"{C.flist(alpha)} {C.flist(beta)}"))
+        if not (float(L[0]) <= 0.0 and float(U[n]) >= 1.0):
+            # hypotheses L_0 <= 0, 1 <= U_n of band_contains_iff_box / band_coverage_is_rect_coverage: otherwise the band excludes every
+            # continuous F just above a resp. just below b, i.e. its coverage is 0
+            rep.violate(what="lower band is positive below the smallest observation or upper band is below 1 at the largest one "
+                             "(such a band contains no continuous CDF: coverage 0)", input=inp,
+                        observed=dict(lower_below_sample=float(L[0]), upper_at_max=float(U[n])), call="EmpiricalDistribution.confidence_bands")
+            continue
+        reqs.append(f"{C.flist(alpha)} {C.flist(beta)}")
         meta.append((inp, alpha, beta))
-    for (inp, alpha, beta), r in zip(meta, drv.run(reqs)):
-        if r is None:
-            rep.disagree(op="band.steck", note="model rejected", input=inp)
+    import time
+    t0 = time.time()
+    replies_rect = drv.run([("band.rect", a) for a in reqs])
+    t_rect = time.time() - t0
+    replies_steck = drv.run([("band.steck", a) for a in reqs])
+    t_steck = time.time() - t0 - t_rect
+    for (inp, alpha, beta), r, r_steck in zip(meta, replies_rect, replies_steck):
+        if r is None or r_steck is None:
+            rep.disagree(op="band.rect" if r is None else "band.steck", note="model rejected", input=inp, lower_levels=alpha, upper_levels=beta)
             continue
         cov = C.parse_ext(r[0])
+        # two independent exact evaluators of the same rectangle probability: the cell-by-cell dynamic programme (proved to be the
+        # volume of the event, Props/C01 rect_coverage_is_volume) and Steck's determinant (cited). They must agree as rationals.
+        rep.count("evaluators=rect_dp_and_steck_determinant_compared_exactly")
+        if cov != C.parse_ext(r_steck[0]):
+            rep.disagree(op="band.rect vs band.steck", note="the two exact evaluators of the rectangle probability differ",
+                         input=inp, lower_levels=alpha, upper_levels=beta, rect=r[0], steck=r_steck[0])
+            continue
         conf, method, n = inp["confidence"], inp["method"], inp["n"]
         rep.case((method, n, conf, inp["a"]), sample=dict(inp, coverage=float(cov), lower_levels=alpha[:4], upper_levels=beta[:4]))
         c = Fr(conf)
@@ -168,12 +190,14 @@ def run(seed, tier, replay=None):
     return rep.result(
         rule="(method, n, confidence, finite/infinite bounds): dkw/ks for n up to 40 (quick) / 80 (thorough) at confidences incl. 0, 1e-12, "
              "1-1e-12, 1; ld_* for small n at a few confidences (each call simulates 100 000 trials). The level tables are read off the "
-             "returned distributions' public cdf; the coverage is evaluated exactly in Q by the driver (band.steck). "
+             "returned distributions' public cdf; the coverage is evaluated exactly in Q by the driver twice (band.rect: dynamic programme over "
+             "the cells between levels, proved to be the rectangle probability; band.steck: Steck's determinant, cited) and the two "
+             "rationals must be equal. "
              "Large n (101..3000 quick, ..20000 thorough), dkw/ks: the levels must be clip(i/n -+ eps) (then, by theorem "
              "C01.dkw_ks_box_iff_sup, coverage = P[D_n <= eps]), and P[D_n <= eps] is evaluated by an independent Durbin/"
              "Marsaglia-Tsang-Wang matrix algorithm (cross-checked against scipy.stats.kstwo.cdf). ld history pairs: a call preceded "
              "by another ld call (other method or confidence) with a generator in the same state.",
-        extra=dict(driver_lines=drv.lines))
+        extra=dict(driver_lines=drv.lines, exact_tables=len(meta), seconds_rect_dp=round(t_rect, 2), seconds_steck_determinant=round(t_steck, 2)))
 
 
 if __name__ == "__main__":
